@@ -11,7 +11,20 @@ from .execproc import run_script, result_kind
 from .replay import MixedEval, make_leaves, ALL, LeafStore
 
 
-def run_trace(chk, script, name, exact_tags=frozenset(), compare_bytes=True):
+def validate_lines(chk, lines, name):
+    path = os.path.join(outdir(chk.prop), name + ".ndjson")
+    with open(path, "w") as f:
+        for l in lines:
+            f.write(json.dumps(l) + "\n")
+    res = tlcrun.run("HpkeTrace", os.path.join(SPEC, "HpkeTrace.cfg"), workers=1, timeout=3600, env={"HPKE_TRACE": path},
+                     java_opts=["-Dtlc2.tool.queue.IStateQueue=StateDeque", "-Xss1g"])
+    chk.add_tlc(res.stats, name)
+    preds = [v for v in res.printed if isinstance(v, dict) and "i" in v]
+    preds.sort(key=lambda v: v["i"])
+    return res, preds
+
+
+def run_trace(chk, script, name, exact_tags=frozenset(), compare_bytes=True, hook=None):
     """returns None if the log is a behaviour of the specification and all obligations hold, else a dict
     describing the first disagreement"""
     store = LeafStore(seed())
@@ -52,15 +65,9 @@ def run_trace(chk, script, name, exact_tags=frozenset(), compare_bytes=True):
         rec["seq"] = list(bytes.fromhex(ev["seq"])) if "seq" in ev else []
         rec["ovf"] = bool(ev.get("ovf", False))
         lines.append(rec)
-    path = os.path.join(outdir(chk.prop), name + ".ndjson")
-    with open(path, "w") as f:
-        for l in lines:
-            f.write(json.dumps(l) + "\n")
-    res = tlcrun.run("HpkeTrace", os.path.join(SPEC, "HpkeTrace.cfg"), workers=1, timeout=3600, env={"HPKE_TRACE": path},
-                     java_opts=["-Dtlc2.tool.queue.IStateQueue=StateDeque", "-Xss1g"])
-    chk.add_tlc(res.stats, name)
-    preds = [v for v in res.printed if isinstance(v, dict) and "i" in v]
-    preds.sort(key=lambda v: v["i"])
+    if hook is not None:
+        lines = hook(lines)          # self-test only: corrupt the log before TLC sees it
+    res, preds = validate_lines(chk, lines, name)
     # 1. the log must be a behaviour of the specification
     for p in preds:
         if p["bad"]:
